@@ -415,6 +415,16 @@ func (x *exec) pendingWriters() int {
 	return n
 }
 
+func (x *exec) writerBlockedOn(ip string) bool {
+	for _, w := range x.writers {
+		if !w.checked && w.addr.IP.String() == ip {
+			return true
+		}
+	}
+
+	return false
+}
+
 func (x *exec) lowestConfirmed() (uint16, string, bool) {
 	best, who, ok := uint16(0), "", false
 	for a, b := range x.m.bind {
@@ -1073,8 +1083,17 @@ func (x *exec) react(p *preq, kind string) {
 		found := false
 		for _, r := range recs {
 			if m := r.rx.Msg; m != nil && m.Class == wire.Request && m.Method == wire.CreatePermission && m.TxID != p.tx {
+				// the retry may cover more peers (a permission refresh lists every known peer)
 				ips, _ := peerIPs(m)
-				if strings.Join(ips, ",") == strings.Join(p.ips, ",") {
+				have := map[string]bool{}
+				for _, ip := range ips {
+					have[ip] = true
+				}
+				all := true
+				for _, ip := range p.ips {
+					all = all && have[ip]
+				}
+				if all {
 					found = true
 				}
 			}
